@@ -298,10 +298,10 @@ def runScript (d : SubsetDef) (pool : List MapTable) (server : List ServerPatch)
       else
         let uris := optUris g
         let idxOf := fun (u : Uri) => (server.findIdx? fun sp => sp.uri = u)
-        if uris.any (fun u => (idxOf u).isNone && (pdGet pd u).isNone) then
-          showList (acc ++ [s!"[{",".intercalate (uris.map toHex)}]", "fetch-failed"])
-        else
-          let pd1 := fetchMissing (fun u => [(idxOf u).getD 0]) pd uris
+        -- one iteration of `extendF` (the binary's loop): fetch what has no status yet, then apply
+        match fetchMissingOpt (fun u => (idxOf u).map fun i => [i]) pd uris with
+        | none => showList (acc ++ [s!"[{",".intercalate (uris.map toHex)}]", "fetch-failed"])
+        | some pd1 =>
           match applyNext g (applyTkScript pool server f) (applyGkScript server f) pd1 with
           | .error e => showList (acc ++ [s!"[{",".intercalate (uris.map toHex)}]", s!"apply:{e}"])
           | .ok (f', pd') =>
